@@ -3508,6 +3508,12 @@ impl<'s> Semantics<'s> {
                 rhs = Expr::zext(lhs.bits(), rhs)?;
             }
 
+            // the processor masks the count to 5 bits (6 for 64-bit operands)
+            let rhs = Expr::and(
+                rhs,
+                expr_const(if lhs.bits() == 64 { 0x3f } else { 0x1f }, lhs.bits()),
+            )?;
+
             // Do the SAR
             let expr = Expr::ashr(lhs.clone(), rhs.clone())?;
 
@@ -3745,6 +3751,12 @@ impl<'s> Semantics<'s> {
                 rhs = Expr::zext(lhs.bits(), rhs)?;
             }
 
+            // the processor masks the count to 5 bits (6 for 64-bit operands)
+            let rhs = Expr::and(
+                rhs,
+                expr_const(if lhs.bits() == 64 { 0x3f } else { 0x1f }, lhs.bits()),
+            )?;
+
             // Do the SHL
             let expr = Expr::shl(lhs.clone(), rhs.clone())?;
 
@@ -3804,6 +3816,12 @@ impl<'s> Semantics<'s> {
             if lhs.bits() != rhs.bits() {
                 rhs = Expr::zext(lhs.bits(), rhs)?;
             }
+
+            // the processor masks the count to 5 bits (6 for 64-bit operands)
+            let rhs = Expr::and(
+                rhs,
+                expr_const(if lhs.bits() == 64 { 0x3f } else { 0x1f }, lhs.bits()),
+            )?;
 
             // Do the SHR
             let expr = Expr::shr(lhs.clone(), rhs.clone())?;
